@@ -90,6 +90,9 @@ def parse_terse(text):
             continue
         if 'out of memory' in line.lower() or 'Status: ERROR' in line:
             res[h]['status'] = 'ERROR'
+        if 'CBMC timed out' in line:
+            # the message follows the verdict line of the harness that was cut off
+            res[h]['status'] = 'TIMEOUT'
     return res
 
 
@@ -176,7 +179,8 @@ def run_group(run, group, jobs=None):
         run.queries += 1
         run.functions.add('kani:' + n)
         entry = {'harness': full, 'status': r['status'] if r else 'MISSING', 'time_s': r['time'] if r else None}
-        if r is None or r['status'] in ('UNKNOWN', 'ERROR'):
+        if r is None or r['status'] in ('UNKNOWN', 'ERROR', 'TIMEOUT') or \
+                (r['status'] == 'FAILED' and not r['failed']):
             entry['note'] = 'no verdict (timeout / out of memory)' if (timed_out or r) else 'harness did not run'
             run.kani.append(entry)
             run.inconclusive.append({'engine': 'kani', 'harness': full, 'reason': entry['note']})
